@@ -25,7 +25,7 @@ CHECKS = {
 CHECKS["C18"] = dict(
     text="Colour, boolean and duration codecs proved against spec functions for all inputs (hex2rgb incl. the rejection "
          "clause, rgb2hex, Boolean, Duration.encode over the full timedelta range with an IEEE-754 division model; "
-         "round-trip lemmas); Duration.decode, Date/DateTime glue and the CSS name table are bounded stand-ins.",
+         "round-trip lemmas); Duration.decode, Date/DateTime glue, Unit (lengths) and the CSS name table are bounded stand-ins.",
     note=TB + " datetime.isoformat/fromisoformat, Decimal assumed (sampled).",
     technique="contracts + spec-function lemmas discharged by z3/cvc5; labelled bounded stand-ins for stdlib glue")
 CHECKS["C14"] = dict(
@@ -119,7 +119,8 @@ CHECKS["C16"] = dict(
 CHECKS["C17"] = dict(
     text="Row.rstrip proved for all run-length rows: removes exactly the maximal suffix of empty cells, every remaining "
          "cell keeps node, repeat and content, invariant re-established through make_cache_map (also proved); transpose, "
-         "optimize_width and spans are bounded stand-ins; the CSV law is not decided (csv.Sniffer heuristic).",
+         "optimize_width, spans and CSV export / import (values as CSV can carry them; the inputs on which csv.Sniffer guesses "
+         "another delimiter are a listed known finding) are bounded stand-ins.",
     note=TB + BND, technique="loop invariants over the abstract XML model, z3; bounded native contracts")
 NOT_APPLICABLE = {p: "not yet under contract in this revision (work in progress; see DESIGN.md §4 for the plan)"
                   for p in []}
